@@ -105,6 +105,19 @@ impl IpDefragBuf {
                     conflicting_end: end,
                 });
             }
+        } else if false == more_fragments {
+            // the end gets set by this fragment, make sure no data
+            // was already received that is located after this end
+            // (would be rejected if the fragments arrive the other
+            // way around)
+            if let Some(previous_end) = self.sections.iter().map(|s| s.end).max() {
+                if end < previous_end {
+                    return Err(ConflictingEnd {
+                        previous_end,
+                        conflicting_end: end,
+                    });
+                }
+            }
         }
 
         // get enough memory to store the de-fragmented
